@@ -87,6 +87,8 @@ def run_property(pid, tier, seed):
         meta[config] = {"bodies": len(fx.fns), "facts_cached": cached, "driver_s": round(secs, 2),
                         "call_sites": sum(1 for f in fx.fns for b in f["blocks"] if b["term"][0] == "Call")}
     extra = {}
+    if tier == "thorough" and not os.environ.get("RM_REPO"):
+        extra.update(_thorough_selftest(pid))
     if tier == "thorough" and hasattr(mod, "thorough"):
         ctx = Ctx(pid, F.load("lib")[0], tier, "thorough-extra")
         extra = mod.thorough(ctx) or {}
@@ -152,6 +154,42 @@ def run_property(pid, tier, seed):
     print(f"{pid}: tier={tier} obligations={n_ob} discharged={n_ok} known={len(known_hit)} violations={len(viol)} undecided={len(und)} "
           f"bodies={meta['lib']['bodies']} wall={ev['wall_s']}s")
     return 1 if viol else 0
+
+
+def _thorough_selftest(pid):
+    """thorough tier: the checker is tested both ways on scratch copies of /repo (never /repo itself): every mutant of the property's corpus and every
+    kept seeded defect must be reported by this property's rules; the unmodified tree was already shown silent above.  A miss is a checker regression
+    (exit 2), never a verdict about /repo."""
+    import selftest, shutil, subprocess, glob
+    res = {"mutants": {}, "seeds": {}}
+    missed = []
+    for m in selftest.load_mutants(pid):
+        try:
+            status, rules, out = selftest.run_one(m)
+        except Exception as e:
+            status, rules = "ERROR:" + str(e)[:80], []
+        res["mutants"][m["id"]] = {"status": status, "rules": rules, "expected": m.get("expect_rule")}
+        if status not in ("CAUGHT", "CAUGHT-OTHER-RULE"): missed.append(m["id"])
+    for sd in sorted(glob.glob(os.path.join(VERIF, "seeded", pid + "-s*"))):
+        d, repo = selftest.make_scratch()
+        try:
+            r = subprocess.run(["patch", "-s", "-p1", "-d", repo, "-i", os.path.join(sd, "patch.diff")], capture_output=True, text=True)
+            if r.returncode != 0:
+                res["seeds"][os.path.basename(sd)] = {"status": "PATCH-FAILED"}; missed.append(os.path.basename(sd)); continue
+            env = dict(os.environ, RM_REPO=repo, RM_EVID=os.path.join(d, "ev"))
+            rr = subprocess.run([os.path.join(VERIF, "check"), pid], capture_output=True, text=True, env=env)
+            rules = sorted({l.split("rule=")[1].split()[0] for l in rr.stdout.splitlines() if l.strip().startswith("violation:")})
+            ok = "VIOLATION property=" in rr.stdout
+            res["seeds"][os.path.basename(sd)] = {"status": "CAUGHT" if ok else "MISSED", "rules": rules}
+            if not ok: missed.append(os.path.basename(sd))
+        finally:
+            shutil.rmtree(d, ignore_errors=True)
+    n_m = len(res["mutants"]); n_s = len(res["seeds"])
+    print(f"{pid}: checker self-test on scratch copies: {n_m - len([x for x in missed if x in res['mutants']])}/{n_m} mutants and "
+          f"{n_s - len([x for x in missed if x in res['seeds']])}/{n_s} seeded defects reported")
+    if missed:
+        raise F.InfraError(f"checker self-test: not reported: {missed}")
+    return {"checker_selftest": res}
 
 
 def run(argv):
